@@ -164,6 +164,10 @@ def build(ch, with_options=True):
                 u1[2].mat = 0; u1[2].fill = 2; u1[2].filltr = make_tr(d, t2b, 'number', 3)
     # the importance written on a cell of a universe does not decide whether the piece is generated: the
     # piece belongs to the level-0 container
+    # U=-n: the same universe, written with the sign that tells MCNP not to test the container boundary
+    uneg = ch.choose('negative-u', ['none', 'first-cell', 'all-cells'])
+    for k, c in enumerate(u1):
+        c.u_negative = (uneg == 'all-cells') or (uneg == 'first-cell' and k == 0)
     fimp0 = ch.choose('filler-imp0', [None, 0, 1])
     if fimp0 is not None:
         u1[fimp0].imp = 0
